@@ -434,7 +434,7 @@ func cmdCheck(args []string) int {
 			if perSite[k] == 1 {
 				perSite[k] += unrefined[c.ob.Harness+"/"+c.ob.Label]
 			}
-			if perSite[k]-unrefined[c.ob.Harness+"/"+c.ob.Label] <= 3 {
+			if perSite[k]-unrefined[c.ob.Harness+"/"+c.ob.Label] <= 6 {
 				kept = append(kept, c)
 			}
 		}
@@ -583,6 +583,22 @@ func cmdCheck(args []string) int {
 					obs[o.Label] = strings.TrimPrefix(w.expect[i], "s:")
 				}
 				samples = append(samples, map[string]interface{}{"witness_path": w.leaf.Harness + "@" + w.leaf.PathID, "inputs": readableVec(w.vec), "predicted_and_native_output": obs})
+			}
+		} else if !r.AssumeOff && r.Panic == "" && nativeAssertFailed(r) != "" && !w.leaf.Ambient {
+			// the compiled code fails a harness assertion on this concrete input: a violation found while
+			// validating a witness (the input is a replayable counterexample like any other)
+			lbl := nativeAssertFailed(r)
+			site := w.leaf.Harness + "/" + lbl + "/assert"
+			if !reportedSite[site] {
+				reportedSite[site] = true
+				violations++
+				dir := filepath.Join(envOr("GOSMT_REPLAY_DIR", filepath.Join(verifDir, "replays")), id, fmt.Sprintf("%d", violations))
+				os.MkdirAll(dir, 0755)
+				writeJSON(filepath.Join(dir, "vector.json"), []Vector{w.vec})
+				writeJSON(filepath.Join(dir, "meta.json"), map[string]interface{}{"property": id, "harness": w.leaf.Harness, "label": lbl, "kind": "witness-replay", "inputs": readableVec(w.vec), "tier": tierName})
+				fmt.Printf("  violated: harness=%s assertion=%q inputs=%v (failed natively while validating a witness)\n", w.leaf.Harness, lbl, readableVec(w.vec))
+				fmt.Printf("VIOLATION property=%s replay=%s\n", id, filepath.Join(dir, "vector.json"))
+				samples = append(samples, map[string]interface{}{"violation": lbl, "harness": w.leaf.Harness, "inputs": readableVec(w.vec)})
 			}
 		} else if w.leaf.Ambient {
 			ambientSkipped++
@@ -881,4 +897,13 @@ func detDiffer(rs []*NativeRun) bool {
 		}
 	}
 	return false
+}
+
+func nativeAssertFailed(r *NativeRun) string {
+	for _, a := range r.Asserts {
+		if !a.OK && !a.Known {
+			return a.Label
+		}
+	}
+	return ""
 }
